@@ -19,6 +19,8 @@ import (
 	"sync/atomic"
 	"testing"
 	"time"
+	"unicode"
+	"unicode/utf8"
 
 	"github.com/AdguardTeam/golibs/hostsfile"
 	"github.com/AdguardTeam/golibs/netutil"
@@ -601,6 +603,41 @@ var longLineProp = vp.Register(vp.Prop[LongLineCase]{
 })
 
 func TestLongLine(t *testing.T) { vp.Run(t, longLineProp) }
+
+// TestCasedRunes calls the fold-aware functions with every rune that has a
+// non-trivial simple-fold orbit (about 2 800, with orbits of up to four
+// members) as the first rune of the needle and of the haystack.
+func TestCasedRunes(t *testing.T) {
+	n := 0
+	for r := rune(0); r < 0x20000; r++ {
+		if unicode.SimpleFold(r) == r || r == utf8.RuneError {
+			continue
+		}
+		n++
+		rs := string(r)
+		c := Case{S: vp.S("x" + rs + "y"), S2: vp.S(rs)}
+		vp.Eval("c01.text")
+		if err := call("two-arg fold functions on cased rune "+vp.Q(rs), func() {
+			for f := unicode.SimpleFold(r); ; f = unicode.SimpleFold(f) {
+				fs := string(f)
+				stringutil.ContainsFold("x"+rs+"y", fs)
+				stringutil.ContainsFold("x"+rs+"y", fs+"y")
+				stringutil.ContainsFold(rs, fs)
+				stringutil.ContainsFold("", fs)
+				stringutil.ContainsFold(fs+fs+fs+fs+fs, rs+rs)
+				if f == r {
+					break
+				}
+			}
+			stringutil.SplitTrimmed(rs+" "+rs, rs)
+		}); err != nil {
+			vp.Fail(t, "c01.text", c, err)
+			return
+		}
+	}
+	vp.ClassN("cased-rune-sweep", int64(n))
+	vp.Exhaustive("every rune below U+20000 with a non-trivial simple-fold orbit as first rune of needle and haystack of ContainsFold", true)
+}
 
 // TestDictionary runs every hostile constant (and every pair with a few
 // second arguments) through the registry.
